@@ -381,6 +381,12 @@ pub fn make_cfg(prop: &str, run_seed: u64) -> (RunCfg, Gen) {
     if prop == "C08" {
         doc.root_ids = rng.chance(1, 4);
     }
+    if ["C06", "C16", "C04", "C01", "C12", "C18", "C13"].contains(&prop) && run_seed % 12 == 7 {
+        // large arrays (merge and edit-script code has size-dependent paths), edited in many places at once
+        doc.max_elems = rng.range(36, 60);
+        doc.id_pool = doc.max_elems + rng.range(8, 20);
+        doc.nested = false;
+    }
     if ["C15", "C10", "C03", "C01", "C09", "C08", "C02", "C12"].contains(&prop) && run_seed % 5 == 1 {
         doc.chars = true;
     }
@@ -468,7 +474,8 @@ pub fn strip_generated_ids(v: &mut Value) {
 
 impl Gen {
     fn next_doc(&mut self, w: &World, r: usize) -> Value {
-        let n = if self.prof.long_chains { 1 } else { self.rng.range(1, 3) };
+        let big = w.cfg.doc.max_elems > 20;
+        let n = if big && self.rng.chance(1, 2) { self.rng.range(6, 16) } else if self.prof.long_chains { 1 } else { self.rng.range(1, 3) };
         self.doc_of(w, r, n)
     }
 
